@@ -26,7 +26,7 @@ import (
 var gapSites = []string{"wt.afterList", "wt.beforeUpdate", "sync.afterCopy", "auth.afterSave", "as.gap1", "as.gap2",
 	"stats.afterUnlock", "order.gap", "migrate.beforeLock", "archive.beforeFile", "equipment.afterUnlock", "recent.afterUnlock", "as.get.afterUnlock"}
 
-var gapOps = []string{"banTarget", "authNew", "report", "equivocate", "rotate", "register", "srvBan"}
+var gapOps = []string{"banTarget", "authNew", "report", "equivocate", "rotate", "register", "srvBan", "sync"}
 
 type icellSpec struct {
 	Site, Op string
@@ -238,6 +238,15 @@ func runInterleaveCell(dir string, spec icellSpec, variant int, seed int64, r *e
 			if want := w.M.Register(reg); want != ok || isErr(st) {
 				mismatch(opDesc, st, want)
 			}
+		case "sync": // a read-only request: no effect in the model, whatever it interleaves with
+			id := uint32(7)
+			if w.A != nil {
+				id = w.A.ID
+			}
+			opDesc = fmt.Sprintf("sync request for device %d", id)
+			if _, _, err := w.Sync(id); err != nil && registered {
+				mismatch(opDesc, "err:"+err.Error(), true)
+			}
 		case "srvBan":
 			var s refenc.AuthServer
 			if registered {
@@ -284,6 +293,18 @@ func runInterleaveCell(dir string, spec icellSpec, variant int, seed int64, r *e
 		return
 	}
 	if effect != nil && !effectBefore {
+		var nrot int
+		if spec.Site == "migrate.beforeLock" {
+			fmt.Sscanf(tres, "rotations=%d", &nrot)
+		}
+		if nrot >= 2 {
+			// exactly one rotation was due (now-offset = 3201) and the rotator ran one iteration; the
+			// injected operation (never "rotate" at this site) does not rotate in any sequential order
+			replay["injected"] = opDesc
+			r.Violationf("window-rotated-more-than-once-for-one-due-rotation", replay,
+				"one rotation was due and the rotation job ran one iteration with %s injected before its critical section: the window was rotated %d times", opDesc, nrot)
+			return
+		}
 		if spec.Site == "migrate.beforeLock" && !strings.HasSuffix(tres, "=1") {
 			r.Inconc(fmt.Sprintf("interleave cell %s: triggering rotation did not rotate (%s)", name, tres))
 			return
